@@ -1,4 +1,4 @@
-(* Hand-written executable model of emulator/bus/bus.go (Attach / EaRead / EaWrite / EaDump) and of the
+(* Hand-written executable model of emulator/bus/bus.go (Attach / EaRead / EaWrite / EaRead24_wrap / EaDump) and of the
    memories of emulator/memory/{ram,rom}.go, routine for routine.  No proofs here; the theorems are in
    Props/BusProps.v, the tie to the compiled code is re-checked on every run (build/work/Run/Cases_C13_*.v).
 
@@ -173,6 +173,33 @@ Definition ea_write (W : world) (rt : routing) (a v : Z) (st : state) : res unit
   | Some m => mem_write W m a v st
   end.
 
+(* func (b *Bus) EaRead24_wrap(bank byte, addr uint16) uint32 : three byte reads whose offset wraps inside the
+   bank (`addr+1`, `addr+2` in uint16); all three segments are looked up BEFORE the first Read, so an
+   unattached one fails loudly without any memory having been touched.  [a] = bank<<16 | addr. *)
+Definition r24_addr (a k : Z) : Z :=
+  Z.lor (Z.shiftl (Z.land (Z.shiftr a 16) 255) 16) ((Z.land a 65535 + k) mod 65536).
+
+Definition ea_read24_wrap (W : world) (rt : routing) (a : Z) (st : state) : res Z :=
+  let a0 := r24_addr a 0 in
+  let a1 := r24_addr a 1 in
+  let a2 := r24_addr a 2 in
+  match seg_at rt a0, seg_at rt a1, seg_at rt a2 with
+  | Some m0, Some m1, Some m2 =>
+      match mem_read W m0 a0 st with
+      | Panic s0 => Panic s0
+      | Ok ll s0 =>
+          match mem_read W m1 a1 s0 with
+          | Panic s1 => Panic s1
+          | Ok mm s1 =>
+              match mem_read W m2 a2 s1 with
+              | Panic s2 => Panic s2
+              | Ok hh s2 => Ok (Z.lor (Z.lor (Z.shiftl hh 16) (Z.shiftl mm 8)) ll) s2
+              end
+          end
+      end
+  | _, _, _ => Panic st
+  end.
+
 (* ------------------------------------------------------------------ EaDump *)
 Inductive dump_variant := DumpCurrent | DumpRepaired.
 
@@ -252,6 +279,7 @@ Inductive op :=
 | OpAttach (m start end_ : Z) (obs : Z)                  (* obs: 0 = nil error, 1 = error, 2 = panic *)
 | OpRead (a : Z) (obs : Z)                               (* obs: the byte, -1 = panic *)
 | OpWrite (a v : Z) (obs : Z)                            (* obs: 0 = returned, -1 = panic *)
+| OpRead24 (a : Z) (obs : Z)                             (* EaRead24_wrap(a>>16, a&$FFFF); obs: the value, -1 = panic *)
 | OpDump (start end_ : Z) (sent len : Z) (obs_n : Z) (obs_data : Z).
   (* data = len bytes of sent; obs_n = -1: panic; obs_data = digest of data afterwards (0 after a panic) *)
 
@@ -274,6 +302,11 @@ Definition run_op (v : dump_variant) (W : world) (o : op) (rt : routing) (st : s
   | OpWrite a b obs =>
       match ea_write W rt a b st with
       | Ok _ st' => (obs =? 0, rt, st')
+      | Panic st' => (obs =? -1, rt, st')
+      end
+  | OpRead24 a obs =>
+      match ea_read24_wrap W rt a st with
+      | Ok b st' => (obs =? b, rt, st')
       | Panic st' => (obs =? -1, rt, st')
       end
   | OpDump s e sent len obs_n obs_data =>
@@ -319,6 +352,7 @@ Definition show_op (v : dump_variant) (W : world) (o : op) (rt : routing) (st : 
   | OpAttach m s e _ => (match attach rt m s e with AOk _ => 0 | AErr => 1 | APanic _ => 2 end, [])
   | OpRead a _ => (match ea_read W rt a st with Ok b _ => b | Panic _ => -1 end, [])
   | OpWrite a b _ => (match ea_write W rt a b st with Ok _ _ => 0 | Panic _ => -1 end, [])
+  | OpRead24 a _ => (match ea_read24_wrap W rt a st with Ok b _ => b | Panic _ => -1 end, [])
   | OpDump s e sent len _ _ =>
       match ea_dump v W rt s e (repeat sent (Z.to_nat len)) st with
       | Ok (n, d) _ => (n, d)
